@@ -152,6 +152,29 @@ class SStr:
                 parts[-1].append(x)
         return [_norm(SStr(p)) for p in parts]
 
+    def _is_in(self, x, chars):
+        if isinstance(x, str):
+            return x in chars
+        return bool(SBool(z3.Or(*[x.e == ord(c) for c in chars])))
+
+    def lstrip(self, chars=None):
+        chars = chars if chars is not None else ' \t\n\r\x0b\x0c'
+        i = 0
+        while i < len(self.c) and self._is_in(self.c[i], chars):
+            i += 1
+        return _norm(SStr(self.c[i:]))
+
+    def rstrip(self, chars=None):
+        chars = chars if chars is not None else ' \t\n\r\x0b\x0c'
+        j = len(self.c)
+        while j > 0 and self._is_in(self.c[j - 1], chars):
+            j -= 1
+        return _norm(SStr(self.c[:j]))
+
+    def strip(self, chars=None):
+        r = self.lstrip(chars)
+        return r.rstrip(chars) if isinstance(r, SStr) else r.strip(chars)
+
     def startswith(self, p):
         p = SStr(p)
         if len(p) > len(self.c):
@@ -289,3 +312,74 @@ def s_in(x, c):
                 return True
         return SBool(z3.Or(*conds)) if conds else False
     return x in c
+
+
+# ----------------------------------------------------------------------------------------------------------------------------
+class _ReShim:
+    """the fragment of `re` the tag / identifier helpers use: match() of a pattern made of literal characters and [...] classes, each
+    optionally followed by *, with an optional trailing $.  Membership of a symbolic character in a class is a solver fork."""
+
+    @staticmethod
+    def _parse(p):
+        toks, i, anchored_end = [], 0, False
+        while i < len(p):
+            c = p[i]
+            if c == '[':
+                j = p.index(']', i + 1)
+                body, neg = p[i + 1:j], False
+                if body.startswith('^'):
+                    body, neg = body[1:], True
+                ranges, k = [], 0
+                while k < len(body):
+                    if k + 2 < len(body) and body[k + 1] == '-':
+                        ranges.append((ord(body[k]), ord(body[k + 2])))
+                        k += 3
+                    else:
+                        ranges.append((ord(body[k]), ord(body[k])))
+                        k += 1
+                tok, i = (ranges, neg), j + 1
+            elif c == '$' and i == len(p) - 1:
+                anchored_end, i = True, i + 1
+                continue
+            elif c in '.()|+?{}\\^':
+                raise OutOfModel('regular expression feature %r' % c)
+            else:
+                tok, i = ([(ord(c), ord(c))], False), i + 1
+            q = '1'
+            if i < len(p) and p[i] == '*':
+                q, i = '*', i + 1
+            toks.append((tok, q))
+        return toks, anchored_end
+
+    @staticmethod
+    def _in(ch, tok):
+        ranges, neg = tok
+        if isinstance(ch, str):
+            r = any(lo <= ord(ch) <= hi for lo, hi in ranges)
+        else:
+            r = bool(SBool(z3.Or(*[z3.And(ch.e >= lo, ch.e <= hi) for lo, hi in ranges])))
+        return (not r) if neg else r
+
+    def match(self, pattern, s, flags=0):
+        if flags:
+            raise OutOfModel('regular expression flags')
+        if isinstance(s, str) and not isinstance(s, SStr):
+            import re as _re
+            return _re.match(pattern, s)
+        toks, end = self._parse(pattern)
+        cs = SStr(s).c
+        pos = 0
+        for tok, q in toks:
+            if q == '1':
+                if pos >= len(cs) or not self._in(cs[pos], tok):
+                    return None
+                pos += 1
+            else:
+                while pos < len(cs) and self._in(cs[pos], tok):      # greedy; the supported patterns never need backtracking
+                    pos += 1
+        if end and pos != len(cs):
+            return None
+        return True
+
+
+re_shim = _ReShim()
